@@ -55,7 +55,12 @@ def shared_inner_cases(rng, n, mk, items=None):
     cases = []
     for _ in range(n):
         inn = rng.choice([[], [G.op_simple('last')], [G.op_simple('take', n=2)]])
-        pipe = [mk(rng, inn), mk(rng, inn)]
+        if rng.random() < 0.5:
+            pipe = [mk(rng, inn), mk(rng, inn)]
+        else:
+            # one composite operator object applied in two branches of a tee_map
+            k = mk(rng, inn)
+            pipe = [G.op_tee('merge', [[k], [k]]), {'op': 'count', 'reduce': True}]
         if items is None:
             lts = rand_lifetimes(rng, rng.choice([1, 2]), 9, vals=range(5))
         else:
@@ -759,6 +764,11 @@ def cases_c03(rng, thorough):
                                for _ in range(rng.randint(0, 7))])) for idx in rng.sample([0, 2], 2)]
         cases.append(mux_case([op], G.schedule(rng, lts)))
     cases += multi_source_cases(rng, 40 if thorough else 10)
+    # one composite operator object at two places of the pipeline
+    n = 12 if thorough else 4
+    cases += shared_inner_cases(rng, n, lambda r, inn: G.op_roll(r.randint(1, 3), r.randint(1, 3), inn))
+    cases += shared_inner_cases(rng, n, lambda r, inn: G.op_group_by('modc', r.choice([2, 3]), inn))
+    cases += shared_inner_cases(rng, n, lambda r, inn: G.op_split('divc', r.choice([2, 3]), inn))
     return cases
 
 
@@ -1331,6 +1341,11 @@ def main(prop):
             # and use it at every position where that descriptor occurs
             if c.get('mode') == 'mux' and 'multi' not in c and 'share_ops' not in c and rng.random() < 0.25:
                 c['share_ops'] = True
+            # and some are preceded by a warm-up subscription of the same piped observable that
+            # is disposed with keys still open (what it received is a prefix of the events)
+            if c.get('mode') == 'mux' and 'multi' not in c and len(c['src']) > 2 and rng.random() < 0.15:
+                evs = [e for e in c['src'] if e.get('t') in ('c', 'n', 'd', 'e')]
+                c['warmup'] = evs[:rng.randint(1, len(evs))]
         stats = {}
         traces = MC.judge(V, cases, P['relevant'], stats, family=prop,
                           isolation=MC.tee_branches_alone if prop == 'C08' else None)
